@@ -84,6 +84,6 @@ for u in UNITS:
         u["trusted"] = [DBL]
 
 native_unit("fri_native", "winter-fri", "fri", "native/fri_bounded.rs", ["C15", "C05"],
-            ["FriProver::build_layers", "FriProver::build_proof", "FriVerifier::new", "FriVerifier::verify", "apply_drp", "fold_positions", "FriProof (de)serialization"],
-            "honest FRI proofs are accepted after serialization for every grid configuration (reused prover, degree == bound / 0 / low, 1..40 queries incl. repeated positions); polynomials above the claimed bound and proofs with a flipped bit are refused; nothing panics",
+            ["FriProver::build_layers", "FriProver::build_proof", "FriVerifier::new", "FriVerifier::verify", "apply_drp", "fold_positions", "FriProof (de)serialization", "VerifierChannel::read_layer_queries"],
+            "honest FRI proofs are accepted after serialization for every grid configuration (reused prover, degree == bound / 0 / low, 1..40 queries incl. repeated positions); polynomials above the claimed bound and proofs with a flipped bit are refused; nothing panics; read_layer_queries returns values iff verify_batch accepts the layer opening for exactly the given positions and commitment (honest, empty, duplicated, out-of-range, dropped, repeated positions; right and wrong commitment)",
             "NATIVE EXECUTION, not a proof: trace lengths 2^3..2^7 x blowup {2,4,8} x folding {2,4,8,16} x remainder degree {0,1,3,7,15,31} (well-formed schedules) over the 128- and 64-bit fields with Blake3_256, seeded polynomials; 5 configurations x all admissible bounds for the above-bound part")
